@@ -40,9 +40,9 @@ def pre_request(conf):
     return ";".join(out) or "-"
 
 
-def export_ext(conf):
+def export_ext(conf, base=None):
     """`scoring_common.export` with the SYBYL type of every atom and the class / exclude flag of every group appended"""
-    a, g = export(conf)
+    a, g = base if base is not None else export(conf)
     al = a.split(";") if a != "-" else []
     gl = g.split(";") if g != "-" else []
     al = [x + "|" + hx(at.sybyl_type or "") for x, at in zip(al, conf.atoms)]
